@@ -165,6 +165,10 @@ def C07():
                mirjobs.multi(mirjobs.fn_asserts(r"ntlm::<impl at src/nla/ntlm\.rs[^>]*>::gss_unwrapex$", "sealed token"),
                              mirjobs.fn_asserts(r"^read_target_info$", "AV pairs"))),
     ]
+    jobs.append(MirJob("c07_mir_sequence_of_callback", "nla/asn1.rs SequenceOf::read_asn1: the element callback handed to yasna reads an element whenever it returns Ok (otherwise yasna's read_sequence_of repeats it forever: a TSRequest with many negoTokens must not spin)",
+                       mirjobs.sequence_of_callback))
+    jobs.append(MirJob("c07_mir_version_skip", "NTLM NEGOTIATE / CHALLENGE / AUTHENTICATE layouts: the Version field is skipped exactly when NTLMSSP_NEGOTIATE_VERSION is clear, for every 32-bit flag value (SMT)",
+                       mirjobs.skip_table(r"_message$")))
     return Prop("C07", [], jobs,
                 assumptions=["E3: call results and loads are unconstrained symbols; message.length() >= payload.len() for a field of the message",
                              "lookups of constant field names in a layout built by the same code are not counted as panic sites"],
@@ -320,6 +324,10 @@ def C10():
     ]
     jobs.append(Kani("c13_h13a_all_headers", "tpkt::Client::read on every 4-byte header (slow-path and fast-path, all declared lengths): the payload handed up (to the fast-path reader) has exactly the declared length for every short- and long-form fast-path header, incl. lengths >= 0x4000",
                      bounds={"header_bytes": 4}, symbolic=["head: [u8;4]"], functions=["core::tpkt::Client::read", "model::link::Link::read"], timeout=400, mem_gb=6))
+    jobs.append(MirJob("c10_mir_bitmap_header_presence", "ts_bitmap_data: the optional compression header is skipped exactly when BITMAP_COMPRESSION is clear or NO_BITMAP_COMPRESSION_HDR is set, whatever other flag bits are set, and otherwise sizes the pixel data (SMT over all 65536 flag values)",
+                       mirjobs.skip_table(r"^ts_bitmap_data$")))
+    jobs.append(MirJob("c10_mir_announced_sizes", "fast-path update size, bitmapLength and the other counted fields announce exactly the structure's size for every field value (SMT)",
+                       mirjobs.announce_table()))
     return Prop("C10", [("core/tpkt.rs", "tpkt.rs")], jobs, lowerings=["L2"], stubs=[S1],
                 assumptions=["the rectangles reach read_fast_path's loops in wire order: Array::read pushes parsed elements in the order read (c18_data_array) - but parsing ts_fp_update / ts_bitmap_data from bytes is NOT executed"],
                 text="Reduced claim, decided on the MIR of the real read_fast_path: per iteration of the update and rectangle loops, which paths invoke the callback, how often, for which update kinds, and from which wire fields each BitmapEvent field is built (dataflow on the explored path + SMT for the compression flag).",
@@ -376,6 +384,8 @@ def C15():
     ]
     jobs.append(MirJob("c15_mir_utf16_encoders", "nla::ntlm::unicode (feeds NTOWFv2, the user/domain fields and TSPasswordCreds) and String::to_unicode: every unit of str::encode_utf16 is written, unconverted, little-endian; confirmed against a from-the-definition UTF-16LE encoder on non-BMP text",
                        mirjobs.utf16_encoders))
+    jobs.append(MirJob("c15_mir_rc4_key_schedule", "Rc4::new (wraps the exported session key in AUTHENTICATE, seals every message): identity permutation and one pass over i = 0..256 with j += S[i] + key[i mod len], swap; confirmed against a textbook RC4 over 72 keys x 1024 bytes of keystream",
+                       mirjobs.rc4_key_schedule))
     return Prop("C15", [], jobs,
                 assumptions=["HMAC-MD5, MD4, RC4 key schedule and the proofs computed with them are NOT decided (third-party crates pinned by the repo's vector tests; CBMC cannot execute them)"],
                 text="Reduced claim: the part of 'accepted by an independent MS-NLMP server' that is arithmetic and wiring - every length/offset pair addresses its field inside the token for all field lengths and flags, the optional Version field agrees with the offset base, the token is assembled from the right inputs in the right order, the MIC covers the three handshake messages.",
@@ -398,6 +408,8 @@ def C16():
         MirJob("c16_mir_signature_layout", "message_signature_ex is Version (constant-checked 1) | Checksum | SeqNum, and the sequence number enters the HMAC little-endian in both mac and gss_unwrapex", mirjobs.signature_layout),
         MirJob("c16_mir_wrap_order", "gss_wrapex/mac: encrypts the data, then the first 8 bytes of HMAC-MD5(signing_key, seq_num || data) with the same cipher, emits version 1 / checksum / seq_num followed by the ciphertext and increments seq_num once", mirjobs.wrap_order),
     ]
+    jobs.append(MirJob("c16_mir_rc4_key_schedule", "Rc4::new (wraps the exported session key in AUTHENTICATE, seals every message): identity permutation and one pass over i = 0..256 with j += S[i] + key[i mod len], swap; confirmed against a textbook RC4 over 72 keys x 1024 bytes of keystream",
+                       mirjobs.rc4_key_schedule))
     return Prop("C16", [("nla/rc4.rs", "rc4.rs")], jobs,
                 assumptions=[S6, DEV, "RC4 key schedule (Rc4::new) is not executed: states are arbitrary, which over-approximates the reachable ones",
                              "md5 / hmac-md5 crates are third-party (pinned by the repo's vector tests)"],
@@ -416,6 +428,8 @@ def C17():
         Kani("c17_neg_req_bytes", "rdp_neg_req(type, protocols, flag) serialises to 01 <flag> 08 00 <protocols LE> for every flag byte and mask", bounds={"flag": "all u8", "protocols": "all u32"}, symbolic=["flag", "protocols"],
              functions=["core::x224::rdp_neg_req", "Component::write"], timeout=600, mem_gb=6),
     ]
+    jobs.append(MirJob("c17_mir_connector_builders", "Connector builder methods (screen, credentials, set_restricted_admin_mode, set_password_hash, layout, auto_logon, blank_creds, check_certificate, name, use_nla): each writes only the setting it is named after, and a mode flag only from its own argument - the mode the checks above reason about is the one the caller chose",
+                       mirjobs.connector_builders))
     return Prop("C17", [("core/tpkt.rs", "tpkt.rs"), ("core/x224.rs", "x224.rs")], jobs, lowerings=["L2"],
                 assumptions=[S1, S6, DEV, "by construction (signatures in the MIR): write_connection_request, mcs::Client::connect and create_negotiate_message take no credential parameter"], stubs=[S1],
                 text="Mode wiring decided on the MIR: which credential sources reach TSCredentials and Client Info under which mode flag (path enumeration with SMT feasibility), the request flag byte and the auto-logon bit as functions of their inputs (SMT), plus the negotiation request bytes by bounded model checking.",
@@ -435,6 +449,8 @@ def C03():
     ]
     jobs.append(MirJob("c03_mir_layouts", "every structure exchanged during the connection sequence has the fields, widths, byte order and optional trailing fields of the specification (56 record constructors; a conforming server's GCC core block may stop after the version or after clientRequestedProtocols)",
                        mirjobs.layout_tables))
+    jobs.append(MirJob("c03_mir_licence_flags", "sec::connect: the server's licence PDU is refused exactly when SEC_LICENSE_PKT is absent from its security flags - any additional flag a conforming server sets (SEC_LICENSE_ENCRYPT_CS, SEC_FLAGSHI_VALID, ...) is accepted (SMT over all 65536 flag values)",
+                       mirjobs.licence_flag_test))
     return Prop("C03", [], jobs,
                 assumptions=["E3 explores every path of each function with call results unconstrained; the order is read off the successful paths"],
                 text="Reduced claim: the ORDER of the connection sequence, the dependence of every message on the preceding server reply, and the wiring of the server-assigned identifiers, decided on the MIR of mcs::Client::connect, Connector::connect, write_client_finalize, mcs::Client::shutdown and the activation automaton.",
@@ -555,7 +571,7 @@ def C06():
     jobs.append(MirJob("c06_mir_allocations", "read_fast_path / read_data_pdu / read_demand_active_pdu request no buffer capacity of their own from wire values (allocation stays proportional to the bytes received); an explicit capacity request is confirmed by an allocation-counting native test",
                        mirjobs.wire_sized_allocations(r"^global::<impl at src/core/global\.rs[^>]*>::(read_fast_path|read_data_pdu|read_demand_active_pdu)$", mirjobs.ALLOC_NATIVE)))
     jobs.append(MirJob("c06_mir_session_arith", "read_fast_path / read_data_pdu / read_demand_active_pdu / PDU::from_control / DataPDU::from_pdu / FastPathUpdate::from_fp / Capability::from_capability_set: no arithmetic check (overflow, division, index) of their own can fail on wire values",
-                       mirjobs.multi(*[mirjobs.fn_asserts(rx, "session PDU field", loop_bound=1, native=(lambda m: mirjobs.FASTPATH_NATIVE) if "fast_path" in rx else None)
+                       mirjobs.multi(*[mirjobs.fn_asserts(rx, "session PDU field", loop_bound=1, native=(lambda m: mirjobs.FASTPATH_NATIVE) if "fast_path" in rx else (lambda m: mirjobs.SESSION_NATIVE))
                                        for rx in (r"^global::<impl at src/core/global\.rs[^>]*>::read_fast_path$", r"^global::<impl at src/core/global\.rs[^>]*>::read_data_pdu$",
                                                   r"^global::<impl at src/core/global\.rs[^>]*>::read_demand_active_pdu$", r"^global::<impl at src/core/global\.rs[^>]*>::from_control$",
                                                   r"^global::<impl at src/core/global\.rs[^>]*>::from_pdu$", r"^global::<impl at src/core/global\.rs[^>]*>::from_fp$",
